@@ -104,6 +104,7 @@ func init() {
 // c16State retains the previous output to detect a result that changes after a
 // later formatting call (scratch-buffer aliasing).
 type c16State struct {
+	calls    int
 	prevOut  []byte
 	prevWant []byte
 	prevDesc string
@@ -157,6 +158,23 @@ func c16Case(w *rt.W, st *c16State, f *c16Formatter, vi, flag int, prefix []byte
 		fail("earlier-result-changed-by-later-call", string(st.prevOut), string(st.prevWant)+" ("+st.prevDesc+")")
 	}
 	st.prevOut, st.prevWant, st.prevDesc = out, append([]byte(nil), out...), f.describe(vi, flag)
+	// every other call the caller reuses its buffers for something else: results of later calls
+	// must not depend on the content of buffers handed out earlier
+	st.calls++
+	if st.calls%2 == 0 {
+		for i := range refOut {
+			refOut[i] = '#'
+		}
+		for i := range backing {
+			backing[i] = '~'
+		}
+		st.prevOut = nil
+		again, err := f.call(nil, vi, flag)
+		w.Eval(1)
+		if err != nil || !bytes.Equal(again, refCopy) {
+			fail("result-depends-on-earlier-returned-buffer", string(again), string(refCopy))
+		}
+	}
 }
 
 func runC16(c *rt.Ctx) {
